@@ -222,6 +222,16 @@ def harness_cases_seed(ctx, binpath, runs, seed, tagsuffix="", timeout=1800, cra
     return terms, jsons, None
 
 
+def is_known(ctx, features):
+    """does an open known finding of this property match the features?  (such cases are listed as
+    KNOWN-FINDING by ctx.report; minimising them first would only cost time)"""
+    for f in getattr(ctx, "findings", []):
+        mt = f.get("match", {})
+        if f.get("property") == ctx.pid and f.get("status") == "open" and mt and all(features.get(k) == v for k, v in mt.items()):
+            return True
+    return False
+
+
 class Deferred:
     """Things that broke without a concrete failing input at hand (proof obligation, translator tie,
     verdict-2 cases).  They are reported — with `no-failing-input-found` — only when the run,
@@ -301,7 +311,7 @@ def correspondence(ctx, d, binp, spec):
     also = d.names()
     for js, (i, code) in fails:
         j = js[i]
-        if ctx.nreplay < 3 and spec["minimise"](j):
+        if ctx.nreplay < 3 and spec["minimise"](j) and not is_known(ctx, spec["features"](j)):
             sh = shape(j)
             _, mj = minimise(ctx, binp, spec["header"], spec["case_type"], spec["judge"], spec["to_input"](j),
                              code, spec["variants"], spec["size"], keep=lambda c: shape(c) == sh,
